@@ -4,6 +4,7 @@ import (
 	"bytes"
 	"fmt"
 	"os"
+	"strings"
 	"time"
 
 	"github.com/streamingfast/bstream"
@@ -144,6 +145,11 @@ func runC04(c *fw.Case) {
 				return
 			}
 			if rr.Err != nil {
+				if rq.StuckAfter != 0 && strings.Contains(rr.Err.Error(), "building wasm module tree: store") && strings.Contains(rr.Err.Error(), "not found") {
+					// second manifestation of the recorded finding C05/stage-index-shift (see c01.go)
+					c.Violation("C04/stage-index-shift/linear-part-store-not-found", "resumed request of the recorded stage-index-shift shape whose outputs were already cached: the linear part fails: "+rr.Err.Error(), s.witness(ex))
+					return
+				}
 				c.Violation("C04/resume/request-failed/"+fw.NormalizeMsg(rr.Err.Error()), fmt.Sprintf("request resumed from the cursor of final block %d failed: %v", d.Num, rr.Err), s.witness(ex))
 				return
 			}
